@@ -1,0 +1,30 @@
+//go:build verif
+
+package l1infotreesync
+
+import (
+	"context"
+
+	"github.com/agglayer/aggkit/sync"
+)
+
+// NewVerifC09Sync builds the real L1InfoTreeSync facade around a real processor (real SQLite store on dbPath,
+// real L1 info tree and rollup exit tree) without driver or downloader: blocks are fed by VerifC09ProcessBlock.
+// Plain functions, so the method set of *L1InfoTreeSync stays exactly the product's. Hook of the /verif C09 check.
+func NewVerifC09Sync(dbPath string) (*L1InfoTreeSync, error) {
+	p, err := newProcessor(dbPath)
+	if err != nil {
+		return nil, err
+	}
+	return &L1InfoTreeSync{processor: p}, nil
+}
+
+// VerifC09ProcessBlock hands one block (Events are l1infotreesync.Event values) to the real processor.
+func VerifC09ProcessBlock(ctx context.Context, s *L1InfoTreeSync, b sync.Block) error {
+	return s.processor.ProcessBlock(ctx, b)
+}
+
+// VerifC09Close closes the store.
+func VerifC09Close(s *L1InfoTreeSync) error {
+	return s.processor.db.Close()
+}
